@@ -6,6 +6,7 @@ import (
 	"fmt"
 	"os"
 	"runtime/debug"
+	"sort"
 	"strings"
 	"sync/atomic"
 	"time"
@@ -250,7 +251,7 @@ func runFaultWorkload(cfg Config, rounds []faultRound, faults []*faultSpec, armA
 				if e != nil {
 					note("round %d: collection read failed: %v", ri, e)
 				} else if !sameContent(m, refs[ri+1]) {
-					note("round %d: collection content is not the reference after %d batches", ri, ri+1)
+					note("round %d: collection content is not the reference after %d batches %s", ri, ri+1, diffContent(m, refs[ri+1]))
 				}
 			}
 			fs, _ := s.Snapshot()
@@ -452,4 +453,37 @@ func famFault(w *bufio.Writer, seed uint64, n int) error {
 		}
 	}
 	return nil
+}
+
+// diffContent names up to three keys on which two contents differ.
+func diffContent(got, want map[string][]byte) string {
+	var ks []string
+	for k := range got {
+		ks = append(ks, k)
+	}
+	for k := range want {
+		if _, ok := got[k]; !ok {
+			ks = append(ks, k)
+		}
+	}
+	sort.Strings(ks)
+	out := "{"
+	n := 0
+	for _, k := range ks {
+		g, okg := got[k]
+		w, okw := want[k]
+		if okg != okw || !bytes.Equal(g, w) {
+			if len(g) > 24 {
+				g = g[:24]
+			}
+			if len(w) > 24 {
+				w = w[:24]
+			}
+			out += fmt.Sprintf(" %q: got %q(%v) want %q(%v);", k, g, okg, w, okw)
+			if n++; n >= 3 {
+				break
+			}
+		}
+	}
+	return out + " }"
 }
